@@ -21,6 +21,11 @@ structure Hdr where
   uses   : List Nat
   /-- headers it includes, transitively (they always precede it in a translation unit) -/
   deps   : List Nat
+  /-- effects that outlive the header other than name bindings — an unbalanced
+      `#pragma pack(push)`, any other state-setting `#pragma`, an `#undef` —, as found in its
+      text.  The name-binding model is only adequate for headers without any: the instance
+      obligation `headers_leave_no_state` requires this list to be empty for every header. -/
+  leaks  : List String := []
   deriving Repr, DecidableEq
 
 def lookupNat (l : List (Nat × Nat)) (n : Nat) : Option Nat :=
